@@ -271,9 +271,14 @@ def gen_int(rng):
 
 def gen_float(rng):
     for _ in range(200):
-        if rng.random() < 0.25:
-            text = rng.choice(SPECIAL_NUMS)
+        c0 = rng.random()
+        if c0 < 0.2:
+            text = rng.choice(SPECIAL_NUMS + LONG_RUN_NUMS)
             if _NUM_RE.match(text).group(3) is None and _NUM_RE.match(text).group(4) is None:
+                continue
+        elif c0 < 0.4:
+            text = nonnormal_literal(rng, rng.randint(-340, 340), rng.choice(("int", "frac")))
+            if text is None:
                 continue
         else:
             sign = "-" if rng.random() < 0.3 else ""
@@ -281,11 +286,11 @@ def gen_float(rng):
             if c < 0.35:
                 ip = "0"
             else:
-                n = rng.randint(1, 4) if c < 0.85 else rng.randint(5, 25)
+                n = rng.randint(1, 4) if c < 0.85 else rng.randint(5, 40)
                 ip = rng.choice("123456789") + "".join(rng.choice("0123456789") for _ in range(n - 1))
             frac = ""
             if rng.random() < 0.7:
-                n = rng.randint(1, 6) if rng.random() < 0.85 else rng.randint(7, 25)
+                n = rng.randint(1, 6) if rng.random() < 0.85 else rng.randint(7, 40)
                 frac = "." + "".join(rng.choice("0123456789") for _ in range(n))
             exp = ""
             if not frac or rng.random() < 0.5:
@@ -303,6 +308,66 @@ def gen_float(rng):
             return v, text
     return _pf("0.5"), "0.5"
 
+
+
+def nonnormal_literal(rng, E, form):
+    """A numeral whose WRITTEN exponent is E (-340..340) while its value stays inside the normal double range:
+    form 'int'  : k integer digits (1..40), optional short fraction  -> value ~ 10^(E+k-1)
+    form 'frac' : 0.<z zeros><digits>  (z 0..40)                      -> value ~ 10^(E-z-1)
+    Returns text or None if no such numeral exists for this E/form."""
+    for _ in range(40):
+        if form == "int":
+            lo, hi = max(1, -307 - E + 1), min(40, 307 - E + 1)     # k-1+E within [-307, 307]
+            if lo > hi:
+                return None
+            k = rng.randint(lo, hi) if rng.random() < 0.7 else rng.choice((lo, hi))
+            mant = rng.choice("123456789") + "".join(rng.choice("0123456789") for _ in range(k - 1))
+            if rng.random() < 0.4:
+                mant += "." + "".join(rng.choice("0123456789") for _ in range(rng.randint(1, 5)))
+        else:
+            lo, hi = max(0, E - 1 - 307), min(40, E - 1 + 307)       # E-z-1 within [-307, 307]
+            if lo > hi:
+                return None
+            z = rng.randint(lo, hi) if rng.random() < 0.7 else rng.choice((lo, hi))
+            mant = "0." + "0" * z + rng.choice("123456789") + "".join(rng.choice("0123456789") for _ in range(rng.randint(0, 7)))
+        ds = str(abs(E))
+        if rng.random() < 0.25:
+            ds = "0" * rng.randint(1, 4) + ds                         # E+0007 style
+        sign = "-" if E < 0 else rng.choice(("", "+"))
+        text = ("-" if rng.random() < 0.25 else "") + mant + rng.choice("eE") + sign + ds
+        if _scope(_pf(text)) is None:
+            return text
+    return None
+
+
+def nonnormal_docs(rng, step=1, offset=0):
+    """Lists of numerals covering every written exponent -340..340 in both non-normalised forms."""
+    lits = []
+    for E in range(-340 + offset, 341, step):
+        for form in ("int", "frac"):
+            t = nonnormal_literal(rng, E, form)
+            if t:
+                lits.append(t)
+    docs = []
+    for i in range(0, len(lits), 16):
+        chunk = lits[i:i + 16]
+        toks, val = [("[", "[")], []
+        for t in chunk:
+            if val:
+                toks.append((",", ","))
+            toks.append(("float", t))
+            val.append(_pf(t))
+        toks.append(("]", "]"))
+        docs.append(Doc(toks, val))
+    return docs
+
+
+LONG_RUN_NUMS = ["0." + "1234567890" * 2 + "5", "0." + "9" * 25, "0." + "0" * 19 + "1", "0." + "0" * 20 + "123", "1." + "0" * 30 + "1",
+                 "3." + "14159265358979323846264338327950288419", "0." + "0" * 38 + "7", "1" + "0" * 19 + ".5", "9" * 20 + ".0",
+                 "1" + "0" * 39 + ".0", "12345678901234567890123456789012345678.9", "0." + "5" * 40, "2." + "7" * 33 + "e-5",
+                 "0." + "0" * 30 + "4e+35", "1" + "2" * 34 + "e-30", "123456789e-315", "0.001e310", "0.0000000001e318",
+                 "1" + "0" * 24 + "e-330", "0." + "0" * 25 + "1e+333", "100e-309", "0.01e+310", "17976931348623157e292",
+                 "0.000022250738585072014e-303"]
 
 def gen_string(rng, maxlen=10):
     n = 0 if rng.random() < 0.1 else (rng.randint(1, maxlen) if rng.random() < 0.9 else rng.randint(maxlen, 40))
@@ -431,6 +496,10 @@ def atomic_docs():
         v = _pi(t) if isint else _pf(t)
         if _scope(v) is None:
             out += list(wrap_variants(("int" if isint else "float", t), v))
+    for t in LONG_RUN_NUMS:
+        v = _pf(t)
+        if _scope(v) is None:
+            out += list(wrap_variants(("float", t), v))[:2]
     for i in BOUNDARY_INTS:
         out += list(wrap_variants(("int", str(i)), _pi(str(i))))[:2]
     for lit, v in (("null", None), ("true", True), ("false", False)):
@@ -553,7 +622,8 @@ SOUP = ["{", "}", "[", "]", ",", ":", '"a"', '""', '"k":', "1", "-1", "0", "0x1F
         "n", "t", "f", "null", "true", "false", "nul", "//", "// c\n", "/", "\\", '"', "\\u00e9", '"\\u12', '"\\x4', '"\\x41"',
         '"\\u0041"', '"\\u0141"', '"\\ud83d\\ude00"', " ", "\n", "\x00", "\x80", "\xff", "1e", "1e+", "1.", "01", ".5", "e5", "--1",
         "[]", "{}", "[,]", "{,}", "[1,]", '{"a":1,}', '{"a":1}', "[1,2]", "1e400", "1e-400", "99999999999999999999", "{1:2}",
-        "{n:1}", "{[]:1}", '{"a"}', '{"a":}', "[1 2]", "\t"]
+        "{n:1}", "{[]:1}", '{"a"}', '{"a":}', "[1 2]", "\t", "1e-310", "5e-324", "4.9406564584124654e-324", "123456789e-325", "0.001e-320",
+        "2.2250738585072011e-308", "1e-400", "-1e+309", "0.1e310", "[1e-320,2E-315]"]
 
 
 # ------------------------------------------------------------------------------------------------
@@ -614,7 +684,9 @@ def _gen_worker2(workdir, tier, seed, k, nshards):
     quick = tier == "quick"
     nrand = 40 if quick else 400
     nsoup = 1500 if quick else 40000
-    fixed = atomic_docs() + deep_docs()
+    # systematic part incl. one numeral per written exponent -340..340 and form (seeded digits; the quick tier
+    # takes every exponent too - the lists are cheap)
+    fixed = atomic_docs() + deep_docs() + nonnormal_docs(random.Random(seed * 7 + 3))
     docs = [d for i, d in enumerate(fixed) if i % nshards == k]
     nfixed = len(docs)
     for _ in range(nrand):
@@ -734,6 +806,16 @@ def cause(exc, what, doc):
 def _features(val, out, depth=1):
     if isinstance(val, (IntLit, FloatLit)):
         out.add("num:" + numclass(val.lit)[7:])
+        m = _NUM_RE.match(val.lit)
+        if m and m.group(4):
+            if abs(int(m.group(6))) >= 310:
+                out.add("num:written-exponent>=310:" + ("neg" if m.group(5) == "-" else "pos"))
+            if len(m.group(6)) > len(m.group(6).lstrip("0")) and m.group(6).lstrip("0"):
+                out.add("num:exponent-leading-zeros")
+        if m and len(m.group(2)) >= 20:
+            out.add("num:integer-digits>=20")
+        if m and m.group(3) and len(m.group(3)) > 20:
+            out.add("num:fraction-digits>=20")
     elif isinstance(val, str):
         out.add("str:" + ("empty" if not val else "high" if any(ord(c) >= 0x80 for c in val) else "ctrl" if any(ord(c) < 0x20 for c in val) else "ascii"))
     elif isinstance(val, list):
